@@ -22,14 +22,27 @@ class Report:
         self.notes = []
         self.skipped = []          # rules not applicable in this configuration
         self.instances = {}        # rule -> count of matched real sites
+        self._seen = {}
 
     # -- recording ---------------------------------------------------------
     def ob(self, rule, instance, ok, detail="", loc="", site=None, trace=None):
         """Record one evaluated obligation.  `site` is the stable signature used to
         match known findings (function + construct, never a line number)."""
-        self.obligations.append({"rule": rule, "instance": instance, "ok": bool(ok),
-                                 "detail": detail, "loc": loc, "variant": self.variant})
-        self.instances[rule] = self.instances.get(rule, 0) + 1
+        key = (rule, instance)
+        prev = self._seen.get(key)
+        if prev is not None:
+            # the same obligation reached again (e.g. on another path): keep one record, failure wins
+            if ok or not prev["ok"]:
+                return ok
+            prev["ok"] = False
+            prev["detail"] = detail
+            prev["loc"] = loc
+        else:
+            rec = {"rule": rule, "instance": instance, "ok": bool(ok),
+                   "detail": detail, "loc": loc, "variant": self.variant}
+            self._seen[key] = rec
+            self.obligations.append(rec)
+            self.instances[rule] = self.instances.get(rule, 0) + 1
         if not ok:
             self.violations.append({"rule": rule, "site": site or instance, "msg": detail,
                                     "loc": loc, "trace": trace or [], "variant": self.variant})
